@@ -444,6 +444,16 @@ def boys_cases(seed, mmax, cls, chunk=7, nrandom=21):
     rng = random.Random(1000003 * seed + 777)
     ts = [Fraction(float(t)) for t in BOYS_GRID]
     ts += [Fraction(10.0 ** rng.uniform(-33.0, 6.0)) for _ in range(nrandom)]
+    # structured arguments, where an implementation would switch between algorithms (series / asymptotic form / table):
+    # squares of k/2 (sqrt(T) = 0.5 .. 20), every integer up to 60 and a seeded sample of multiples of 1/4 up to 200,
+    # each with its two neighbouring doubles (a mask written as `<` and `>` loses exactly the boundary value)
+    import math
+    squares = [Fraction(k * k, 4) for k in range(1, 41)]
+    others = [Fraction(k) for k in range(1, 61)] + [Fraction(rng.randint(1, 800), 4) for _ in range(20)]
+    for t in sorted(set(squares)):
+        f = float(t)
+        ts += [Fraction(f), Fraction(math.nextafter(f, 0.0)), Fraction(math.nextafter(f, math.inf))]
+    ts += [t for t in sorted(set(others)) if t not in squares]
     return [{"kind": "boys", "cls": cls, "orders": list(range(mmax + 1)), "T": [str(t) for t in ts[i:i + chunk]]}
             for i in range(0, len(ts), chunk)]
 
